@@ -90,6 +90,7 @@ func init() {
 		}
 		armed.spec = nil
 		if a.victim == "pause" {
+			armed.fired = map[string]interface{}{"point": point, "who": a.cl.indexOf(who), "part": part}
 			armed.Unlock()
 			close(a.reached)
 			<-a.release
@@ -369,6 +370,55 @@ func init() {
 						}
 						ob["ms"] = time.Since(t0).Milliseconds()
 					}
+					ob["t0"], ob["t1"] = t0.UnixMilli(), time.Now().UnixMilli()
+				case "d46":
+					// a fragment move whose receiver has looked up (created) its fragment and not yet locked it, while the
+					// receiver's janitor passes: {"op":"d46","c":"<fail point>","m":<sender>}. The sender's balancer run is
+					// started, the first goroutine that reaches the point is held, the janitor runs on every member, the
+					// goroutine is released and the balancer run is awaited.
+					t0 := time.Now()
+					ob = map[string]interface{}{"r": "ok", "hit": false}
+					spec := &armSpec{point: op.C, victim: "pause", nth: 1, cl: cl, reached: make(chan struct{}), release: make(chan struct{})}
+					armed.Lock()
+					armed.spec = spec
+					armed.fired = nil
+					armed.Unlock()
+					moveDone := make(chan struct{})
+					go func() {
+						for _, m := range cl.Members {
+							if m.Alive {
+								m.DB.VerifBalancer().BalanceEagerly()
+							}
+						}
+						close(moveDone)
+					}()
+					select {
+					case <-spec.reached:
+						ob["hit"] = true
+						armed.Lock()
+						fired := armed.fired
+						armed.Unlock()
+						ob["fired"] = fired
+						// the janitor of the member that is held at the point (the sender holds its own fragment lock
+						// for the whole move: its janitor would wait for that)
+						if w, ok := fired["who"].(int); ok && w >= 0 && cl.Members[w].Alive {
+							cl.Members[w].DB.VerifDMap().VerifJanitor()
+						}
+						close(spec.release)
+					case <-moveDone:
+					case <-time.After(20 * time.Second):
+						ob["r"] = "harness:neither the fail point nor the end of the balancer run was reached"
+					}
+					select {
+					case <-moveDone:
+					case <-time.After(60 * time.Second):
+						ob["r"] = "harness:the balancer run did not end"
+					}
+					armed.Lock()
+					if armed.spec == spec {
+						armed.spec = nil
+					}
+					armed.Unlock()
 					ob["t0"], ob["t1"] = t0.UnixMilli(), time.Now().UnixMilli()
 				case "fired":
 					armed.Lock()
